@@ -1219,6 +1219,10 @@ func (t *c20Tainter) run(fn *ssa.Function, seed ssa.Value, depth int) *c20TaintR
 				}
 			case *ssa.Field:
 				add(u)
+			case *ssa.Extract:
+				if u.Index == 0 && isStringType(u.Type()) {
+					add(u) // (string-like, error) result of a function applied to the raw text
+				}
 			case *ssa.FieldAddr:
 				if addrLike && u.X == v {
 					add(u) // address inside a tainted cell
@@ -1303,9 +1307,12 @@ func (t *c20Tainter) run(fn *ssa.Function, seed ssa.Value, depth int) *c20TaintR
 						if sub.returns && u.Value() != nil {
 							add(u.Value())
 						}
-					case !addrLike && u.Value() != nil && isStringType(u.Value().Type()) && (strings.HasPrefix(name, "strings.") || strings.HasPrefix(name, "fmt.Sprint")):
-						add(u.Value())
 					case addrLike && u.Value() != nil && isStringType(u.Value().Type()) && strings.HasPrefix(name, "fmt.Sprint"):
+						add(u.Value())
+					case !addrLike && u.Value() != nil && c20StringResult(u.Value().Type()):
+						// any other function: a string it computes from the raw text (a trimmed
+						// copy, a digest parsed out of a suffix, its String()) is still not the
+						// parsed Reference — validating a part does not examine the rest
 						add(u.Value())
 					}
 				}
@@ -1313,6 +1320,15 @@ func (t *c20Tainter) run(fn *ssa.Function, seed ssa.Value, depth int) *c20TaintR
 		}
 	}
 	return res
+}
+
+// c20StringResult: the call yields a string-kinded value, alone or as the
+// first result of a tuple.
+func c20StringResult(t types.Type) bool {
+	if tup, ok := t.(*types.Tuple); ok {
+		return tup.Len() > 0 && isStringType(tup.At(0).Type())
+	}
+	return isStringType(t)
 }
 
 func c20R5(c *Ctx) {
@@ -1476,5 +1492,8 @@ var c20Mutants = []Mutant{
 	{Name: "blob-fetch-builds-url-by-hand", File: "registry/remote/repository.go",
 		Old: "\trefDigest, err := ref.Digest()\n\tif err != nil {\n\t\treturn ocispec.Descriptor{}, nil, err\n\t}\n\n\tctx = auth.AppendRepositoryScope(ctx, ref, auth.ActionPull)\n\turl := buildRepositoryBlobURL(s.repo.PlainHTTP, ref)\n",
 		New: "\trefDigest, err := ref.Digest()\n\tif err != nil {\n\t\treturn ocispec.Descriptor{}, nil, err\n\t}\n\n\tctx = auth.AppendRepositoryScope(ctx, ref, auth.ActionPull)\n\turl := buildRepositoryBaseURL(s.repo.PlainHTTP, ref) + \"/blobs/\" + reference\n", Expect: "C20.R5"},
+	{Name: "blob-resolve-parses-only-the-digest-suffix", File: "registry/remote/repository.go",
+		Old: "\tref, err := s.repo.ParseReference(reference)\n\tif err != nil {\n\t\treturn ocispec.Descriptor{}, err\n\t}\n\trefDigest, err := ref.Digest()\n\tif err != nil {\n\t\treturn ocispec.Descriptor{}, err\n\t}\n",
+		New: "\trefDigest, err := digest.Parse(reference[strings.LastIndexByte(reference, '@')+1:])\n\tif err != nil {\n\t\treturn ocispec.Descriptor{}, err\n\t}\n\tref := s.repo.Reference\n\tref.Reference = refDigest.String()\n", Expect: "C20.R5"},
 	{Name: "reference-placed-in-query", File: "registry/remote/url.go", Old: "\t\t\"%s/referrers/%s%s\",", New: "\t\t\"%s/referrers/?digest=%s%s\",", Expect: "C20.R4"},
 }
